@@ -991,7 +991,9 @@ T(vp_get_subtree)
     R->failed = p == NULL && errno != 0;
 }
 T(vp_set_subtree) { RPTR(v ? c3_vssub(&F->root, "%s", S0) : vnaproperty_set_subtree(&F->root, "%s", S0)); }
-T(vp_copy) { RINT(vnaproperty_copy(&F->root2, AP(0))); }
+/* errno as an earlier failed look-up leaves it: the copy (of a tree that
+   holds a null) must not take it for its own */
+T(vp_copy) { errno = ENOENT; RINT(vnaproperty_copy(&F->root2, AP(0))); }
 T(vp_quote_key)
 {
     char *q = vnaproperty_quote_key(AP(0));
